@@ -13,7 +13,8 @@ Inductive stack :=
 | SCached (s : stack)
 | SBatched (limit : Z) (s : stack)
 | SFmt (f : fkind) (s : stack)
-| SFmtR (f : fkind) (s : stack).     (* random (non-deterministic) key formatting *)
+| SFmtR (f : fkind) (s : stack)      (* random (non-deterministic) key formatting *)
+| SFmtE (s : stack).                 (* random key formatting with a formatter that embeds the key (EDV encrypted formatter) *)
 
 Definition fmt_of (f : fkind) : formatter := match f with FNoop => noop_fmt | FB64 => b64_fmt end.
 
@@ -26,10 +27,11 @@ Fixpoint prov_of (s : stack) : prov :=
   | SBatched l s' => batched l (prov_of s')
   | SFmt f s' => formatted_det (fmt_of f) (prov_of s')
   | SFmtR f s' => formatted_rand true (fmt_of f) (prov_of s')
+  | SFmtE s' => formatted_rand_embed true b64_fmt (prov_of s')
   end.
 
 Fixpoint persistent (s : stack) : bool :=
-  match s with SMem => false | SLevel => true | SCached s' | SBatched _ s' | SFmt _ s' | SFmtR _ s' => persistent s' end.
+  match s with SMem => false | SLevel => true | SCached s' | SBatched _ s' | SFmt _ s' | SFmtR _ s' | SFmtE s' => persistent s' end.
 
 (* the user calls Flush on the store (the Rewrap step runs the model's Flush first), then new wrapper objects are built
    over the provider that holds the data; the deep flush below is then a no-op kept for the proofs *)
@@ -41,6 +43,7 @@ Fixpoint rewrap (s : stack) : St (prov_of s) -> St (prov_of s) :=
   | SBatched l s' => fun x => (rewrap s' (fst (fst (bflush (prov_of s') x))), [])
   | SFmt _ s' => fun x => rewrap s' x
   | SFmtR _ s' => fun x => (rewrap s' (fst x), snd x)
+  | SFmtE s' => fun x => (rewrap s' (fst x), snd x)
   end.
 
 Inductive hop := Op (o : op) | Rewrap.
